@@ -1384,6 +1384,8 @@ class Interp(Engine):
         # modular call: a callee under contract is replaced by its contract (never at depth 0 = function under proof)
         if qual in s.contracts and s.call_depth > 0 and qual not in s.inline_only:
             return s.contracts[qual].use(s, args[0] if cls else None, args[1:] if cls else args, kw)
+        if cls is not None and (cls, fn.name) in s.src.dispatch and len(args) > 1 and not getattr(fn, '_pyvc_overload', False):
+            fn = s.dispatch_overload(cls, fn.name, args[1])
         if s.is_generator(fn):
             return s.call_generator(fn, args, kw, cls, qual, closure_env)
         env = Env(closure_env)
@@ -1399,6 +1401,33 @@ class Interp(Engine):
         finally:
             s.call_depth -= 1
         return None
+
+    def dispatch_kind(s, v):
+        """functools.singledispatch resolution for the value kinds of the model (most specific registered class)"""
+        if isinstance(v, (str, OpaqueStr)):
+            return ['str']
+        if isinstance(v, dict):
+            return ['dict', 'Iterable']
+        if isinstance(v, Obj):
+            return [v.cls] + (['Iterable'] if '__iter__' in s.classes[v.cls]['methods'] else []) + (['Callable'] if '__call__' in s.classes[v.cls]['methods'] else [])
+        if isinstance(v, bool) or is_conc_num(v):
+            return ['Complex']
+        if isinstance(v, Sym):
+            return ['Complex'] if not (v.kind == 'bool' and v.np) else []
+        if isinstance(v, (Closure, Builtin)):
+            return ['Callable']
+        if isinstance(v, (list, tuple, Vec, NamedTuple, SymSeq)) or s.ext('isinstance', v, 'Iterable') is True:
+            return ['Iterable']
+        return []
+
+    def dispatch_overload(s, cls, fname, v):
+        table = s.src.dispatch[(cls, fname)]
+        for kind in s.dispatch_kind(v) + ['object']:
+            for tn, fn in table:
+                if tn == kind:
+                    fn._pyvc_overload = True
+                    return fn
+        raise Unsupported('singledispatch: no overload')
 
     _gen_cache = {}
 
